@@ -533,13 +533,13 @@ SUM_TEMPLATES = [
     '<g transform="matrix(# # # # # #)"><rect width="1" height="1" transform="matrix(# # # # # #)"/></g>',
     '<svg x="#" y="#" width="#" height="#" viewBox="# # # #"><rect width="1" height="1"/></svg>',
     '<symbol id="sy@" viewBox="# # # #"><rect width="1" height="1"/></symbol><use xlink:href="#sy@" x="#" y="#" width="#" height="#"/>',
-    '<linearGradient id="lg@" x1="#" y1="#" x2="#" y2="#" gradientTransform="scale(#) scale(#)" gradientUnits="$U"><stop offset="#"/><stop offset="#" stop-color="red" stop-opacity="#"/></linearGradient><rect width="9" height="9" fill="url(#lg@)"/>',
-    '<radialGradient id="rg@" cx="#" cy="#" r="#" fx="#" fy="#" fr="#" gradientUnits="$U"><stop offset="0"/><stop offset="1" stop-color="red"/></radialGradient><rect width="9" height="9" stroke="url(#rg@)" stroke-width="#"/>',
-    '<pattern id="pt@" x="#" y="#" width="#" height="#" viewBox="# # # #" patternUnits="$U" patternContentUnits="$U" patternTransform="scale(#)"><rect width="#" height="#"/></pattern><rect x="#" width="9" height="9" fill="url(#pt@)"/>',
-    '<mask id="mk@" x="#" y="#" width="#" height="#" maskUnits="$U" maskContentUnits="$U"><rect width="#" height="#" fill="white"/></mask><rect x="#" y="#" width="#" height="#" mask="url(#mk@)"/>',
-    '<clipPath id="cp@" clipPathUnits="$U" transform="scale(# #)"><rect x="#" width="#" height="#"/></clipPath><rect x="#" width="#" height="#" clip-path="url(#cp@)"/>',
+    '<linearGradient id="lg@" x1="#" y1="#" x2="#" y2="#" gradientTransform="scale(#) scale(#)" gradientUnits="$U"><stop offset="#"/><stop offset="#" stop-color="red" stop-opacity="#"/></linearGradient><rect width="9" height="9" fill="url(#lg@)"/><circle cx="5" cy="5" r="3" stroke="url(#lg@)"/>',
+    '<radialGradient id="rg@" cx="#" cy="#" r="#" fx="#" fy="#" fr="#" gradientUnits="$U"><stop offset="0"/><stop offset="1" stop-color="red"/></radialGradient><rect width="9" height="9" stroke="url(#rg@)" stroke-width="#"/><circle cx="5" cy="5" r="3" fill="url(#rg@)"/>',
+    '<pattern id="pt@" x="#" y="#" width="#" height="#" viewBox="# # # #" patternUnits="$U" patternContentUnits="$U" patternTransform="scale(#)"><rect width="#" height="#"/></pattern><rect x="#" width="9" height="9" fill="url(#pt@)"/><circle cx="5" cy="5" r="3" fill="url(#pt@)" stroke="url(#pt@)"/>',
+    '<mask id="mk@" x="#" y="#" width="#" height="#" maskUnits="$U" maskContentUnits="$U"><rect width="#" height="#" fill="white"/></mask><rect x="#" y="#" width="#" height="#" mask="url(#mk@)"/><circle cx="5" cy="5" r="3" mask="url(#mk@)"/>',
+    '<clipPath id="cp@" clipPathUnits="$U" transform="scale(# #)"><rect x="#" width="#" height="#"/></clipPath><rect x="#" width="#" height="#" clip-path="url(#cp@)"/><circle cx="5" cy="5" r="3" clip-path="url(#cp@)"/>',
     '<marker id="mr@" markerWidth="#" markerHeight="#" refX="#" refY="#" viewBox="# # # #" markerUnits="$M"><rect width="1" height="1"/></marker><path d="M0 0 L5 0 L5 5" stroke="black" stroke-width="#" marker-mid="url(#mr@)"/>',
-    '<filter id="fl@" x="#" y="#" width="#" height="#" filterUnits="$U" primitiveUnits="$U">$P</filter><rect x="#" y="#" width="#" height="#" filter="url(#fl@)"/>',
+    '<filter id="fl@" x="#" y="#" width="#" height="#" filterUnits="$U" primitiveUnits="$U">$P</filter><rect x="#" y="#" width="#" height="#" filter="url(#fl@)"/><circle cx="5" cy="5" r="3" filter="url(#fl@)"/>',
     '<filter id="fl@">$P$P</filter><rect width="9" height="9" filter="url(#fl@)"/>',
     '<filter id="fl@" primitiveUnits="objectBoundingBox">$P</filter><g filter="url(#fl@)"><rect x="#" width="#" height="#"/></g>',
 ]
@@ -558,7 +558,9 @@ SUM_PRIMS = [
 
 
 def sum_doc(rng):
-    """1-3 templates, every numeric slot filled from BIG with probability 1/2 (else a small sane number)"""
+    """(every definition is used by two elements: the converter treats a shared definition differently from an exclusively owned
+    one - Arc::get_mut in Paint::to_user_coordinates)
+    1-3 templates, every numeric slot filled from BIG with probability 1/2 (else a small sane number)"""
     body = ''
     for k in range(1 + rng.below(3)):
         t = rng.choice(SUM_TEMPLATES)
